@@ -186,7 +186,8 @@ def drive_direct(ws, sched):
                 continue
             outq.put((out, None))
 
-    threads = {sid: threading.Thread(target=worker, args=(sid,), daemon=True) for sid in (0, 1)}
+    threads = {sid: threading.Thread(target=worker, args=(sid,), daemon=True)
+               for sid in sorted({s for s, _ in sched})}
     for t in threads.values():
         t.start()
     writes, dead, died_at, exc = [], [False, False], [None, None], None
@@ -202,7 +203,7 @@ def drive_direct(ws, sched):
             died_at[sid] = i
             if exc is None or err != "ResponseNotAccepted":
                 exc = err
-    for sid in (0, 1):
+    for sid in threads:
         inq[sid].put(None)
     for t in threads.values():
         t.join(5)
@@ -443,7 +444,7 @@ class C12(Prop):
     id = "C12"
     corr_module = "Corr.C12Corr"
     quick_n = 2300
-    thorough_n = 20000
+    thorough_n = 15000
     shard_size = 400
     rule = ("texts over {a, b, newline} plus, with lower weight, carriage return (CRLF cut between CR and LF) "
             "and an upper-case letter (length <= 7), random compositions into reads, 1-2 streams randomly "
@@ -454,7 +455,7 @@ class C12(Prop):
             "password; long texts (600-1100 filler characters around the occurrences) with a few chosen "
             "cuts; driven through the watcher objects, Runner.run and Context.sudo.  non-trivial = some "
             "watcher pattern occurs in a stream's text and that stream has >= 2 reads.  thorough adds every "
-            "composition of every text of length <= 6 over {a,b,newline} (and every 40th of length 7) x the "
+            "composition of every text of length <= 6 over {a,b,newline} (and every 81st of length 7) x the "
             "patterns occurring in it, every composition of length <= 5 over {a, CR, LF}, and length <= 4 x 4 "
             "failing pairs")
     trusted_base = [
@@ -592,7 +593,7 @@ class C12(Prop):
         if tier == "thorough":
             # length 7: every 27th text, all 64 compositions
             for k, tup in enumerate(itertools.product(ALPHA, repeat=7)):
-                if k % 40:
+                if k % 81:
                     continue
                 s = "".join(tup)
                 for comp in compositions(s):
